@@ -27,7 +27,7 @@ structure Sys (H : Type) where
 def updC {α} (f : Nat → α) (k : Nat) (v : α) : Nat → α := fun x => if x = k then v else f x
 
 /-- one request of client `i` -/
-def step (hash : Bytes → H) (cname : Key → H → Key) (s : Sys H) (i : Nat) : Sys H :=
+def step (hash : Bytes → H) (cname : HTree → Key → H → Key) (s : Sys H) (i : Nat) : Sys H :=
   match (s.clients i).listing with
   | none => { s with clients := updC s.clients i { (s.clients i) with listing := some (fun k => (hget s.hub k).map hash) } }
   | some l =>
@@ -37,11 +37,12 @@ def step (hash : Bytes → H) (cname : Key → H → Key) (s : Sys H) (i : Nat) 
       let r := syncFile hash cname l (s.hub, (s.clients i).counters) f
       { hub := r.1, clients := updC s.clients i { files := rest, listing := some l, counters := r.2 } }
 
-def run (hash : Bytes → H) (cname : Key → H → Key) (s : Sys H) (sched : List Nat) : Sys H :=
+def run (hash : Bytes → H) (cname : HTree → Key → H → Key) (s : Sys H) (sched : List Nat) : Sys H :=
   sched.foldl (step hash cname) s
 
-/-- every conflict-copy name holds content of the hash it is named after -/
-def CCInv (hash : Bytes → H) (cname : Key → H → Key) (t : HTree) : Prop :=
-  ∀ k h c, hget t (cname k h) = some c → hash c = h
+/-- the hub's choice of a conflict-copy name never lands on other content: the name is free, or already
+holds content of the same hash (what the repaired `handle_put` guarantees under the commit lock) -/
+def CFree (hash : Bytes → H) (cname : HTree → Key → H → Key) : Prop :=
+  ∀ t k h, hget t (cname t k h) = none ∨ (hget t (cname t k h)).map hash = some h
 
 end Copia.HubMulti
